@@ -384,6 +384,7 @@ pub fn candidates(c: &Case) -> Vec<Case> {
     // simplify op arguments
     for i in 0..c.ops.len() {
         let simpler: Vec<Op> = match &c.ops[i] {
+            Op::PeekN { n } if *n > 8 => vec![Op::PeekN { n: 1 }, Op::PeekN { n: n / 2 }],
             Op::PeekN { n } if *n > 0 => vec![Op::PeekN { n: n - 1 }],
             Op::SetOffset { o } if *o > 0 => vec![Op::SetOffset { o: 0 }, Op::SetOffset { o: o - 1 }],
             Op::WithOffset { o } if *o > 0 => vec![Op::WithOffset { o: 0 }, Op::WithOffset { o: o - 1 }],
